@@ -26,7 +26,8 @@ var NAMES=['a','b','c','constructor','prototype','length','name','caller','messa
 var GLOBAL=this;
 function OG(n){ var r=(hop.call(GLOBAL,n)?V(GLOBAL[n]):'0')+'/'+B(n in GLOBAL)+B(hop.call(GLOBAL,n))+B(pie.call(GLOBAL,n))+'/'+G(GLOBAL,n); var l=L.length?L.join(','):'-'; L=[]; return l+'|'+r; }
 var hop=Object.prototype.hasOwnProperty, pie=Object.prototype.propertyIsEnumerable;
-function mk(k){ return function(v){ if(arguments.length>0){ L.push(k+'.'+O.indexOf(this)+'.'+V(v)); } return 100+10*O.indexOf(this)+k; }; }
+function IX(t){ var i=O.indexOf(t); return i<0?O.length:i; }
+function mk(k){ return function(v){ if(arguments.length>0){ L.push(k+'.'+IX(this)+'.'+V(v)); } return 100+10*IX(this)+k; }; }
 var F=[mk(0),mk(1),mk(2)];
 function V(x){ if(x===undefined) return '0'; if(typeof x==='number') return x!==x?'3': x===0?(1/x>0?'1':'2'): String(x+3);
   if(x===true) return '996'; if(x===false) return '995'; if(typeof x==='string') return '997';
@@ -488,8 +489,127 @@ func implC07Prim(fn, arg string) string {
 	return v.String()
 }
 
+// c07RunDirty runs a script that pollutes built-in prototypes; the VM is reused only when the script reports a clean exit.
+func c07RunDirty(src string) string {
+	w := c07Pool.Get().(*c07VM)
+	v, err := w.vm.Run(src)
+	if err != nil {
+		return "abort:" + c07san(err.Error())
+	}
+	out := v.String()
+	if strings.HasPrefix(out, "clean:") {
+		c07Pool.Put(w)
+		return out[len("clean:"):]
+	}
+	return strings.TrimPrefix(out, "dirty:")
+}
+
+var c07Prims = map[string][2]string{"s": {"String.prototype", "\"abc\""}, "n": {"Number.prototype", "(5)"}, "b": {"Boolean.prototype", "true"}}
+
+// implC07Wrapper: `tag` defined on a built-in prototype, then assigned and read through a primitive.
+func implC07Wrapper(f []string) string {
+	kp, ok := c07Prims[f[1]]
+	if !ok {
+		return "bad-op"
+	}
+	holder := "Object.prototype"
+	if f[2] == "1" {
+		holder = kp[0]
+	}
+	d := strings.Split(f[3], ".")
+	assign := kp[1] + ".tag=" + c07ValLit(f[5]) + ";"
+	if f[4] == "idx" {
+		assign = kp[1] + "['tag']=" + c07ValLit(f[5]) + ";"
+	}
+	src := "(function(){ O=[Object.prototype," + kp[0] + "];L=[];SP=[]; var H=" + holder + ", defOut, clean=true;\n" +
+		"try{ Object.defineProperty(H,'tag'," + c07Desc(d, len(f[3])%6) + "); defOut='ok'; }catch(e){ defOut=(e instanceof TypeError)?'T':'E:'+e.name; }\n" +
+		"L=[]; try{ " + assign + " }catch(e){ L.push('threw:'+e.name); }\n" +
+		"var calls=L.length?L.join(','):'-'; L=[]; var got=V(" + kp[1] + ".tag);\n" +
+		"var hold=V(H.tag)+'/'+B('tag' in H)+B(hop.call(H,'tag'))+B(pie.call(H,'tag'))+'/'+G(H,'tag');\n" +
+		"try{ if(!(delete H.tag) || hop.call(H,'tag')) clean=false; }catch(e){ clean=false; }\n" +
+		"return (clean?'clean:':'dirty:')+[defOut,calls,got,hold].join('|'); })()"
+	return c07RunDirty(src)
+}
+
+// implC07ReadOrder: every present field of the descriptor object is a getter that logs its own code.
+func implC07ReadOrder(desc string) string {
+	d := strings.Split(desc, ".")
+	if len(d) != 6 {
+		return "bad-op"
+	}
+	var b strings.Builder
+	b.WriteString("(function(){ var lg=[], d={}; function ad(k,c,v){ Object.defineProperty(d,k,{get:function(){lg.push(c);return v;},enumerable:true,configurable:true}); }\n")
+	if d[0] != "-" {
+		b.WriteString("ad('enumerable',0," + c07Bool(d[0], false) + ");")
+	}
+	if d[1] != "-" {
+		b.WriteString("ad('configurable',1," + c07Bool(d[1], false) + ");")
+	}
+	if d[2] != "-" {
+		b.WriteString("ad('writable',2," + c07Bool(d[2], false) + ");")
+	}
+	if d[3] != "-" {
+		b.WriteString("ad('value',3," + c07ValLit(d[3]) + ");")
+	}
+	if d[4] != "-" {
+		b.WriteString("ad('get',4," + c07GS(d[4]) + ");")
+	}
+	if d[5] != "-" {
+		b.WriteString("ad('set',5," + c07GS(d[5]) + ");")
+	}
+	b.WriteString("\nvar out; try{ Object.defineProperty({},'x',d); out='ok'; }catch(e){ out=(e instanceof TypeError)?'T':'E:'+e.name; }\n")
+	b.WriteString("return 'clean:'+(lg.length?lg.join('.'):'-')+'|'+out; })()")
+	return c07RunDirty(b.String())
+}
+
+// built-in -> (prototype to pollute, property name, expression creating the object)
+var c07Builtins = map[string][3]string{
+	"json":     {"Object.prototype", "tag", "JSON.parse('{\"tag\":1}')"},
+	"literal":  {"Object.prototype", "tag", "({tag:1})"},
+	"arrlit":   {"Array.prototype", "0", "[1]"},
+	"defprops": {"Object.prototype", "tag", "Object.defineProperties({}, {tag:{value:1,writable:true,enumerable:true,configurable:true}})"},
+	"create":   {"Object.prototype", "tag", "Object.create({}, {tag:{value:1,writable:true,enumerable:true,configurable:true}})"},
+	"args":     {"Object.prototype", "0", "(function(){return arguments})(1)"},
+	"smatch":   {"Array.prototype", "0", "'abc'.match(/b/)"},
+	"gopd":     {"Object.prototype", "value", "Object.getOwnPropertyDescriptor({x:1},'x')"},
+	"keys":     {"Array.prototype", "0", "Object.keys({k:1})"},
+	"map":      {"Array.prototype", "0", "[1].map(function(x){return x})"},
+	"split":    {"Array.prototype", "0", "'a,b'.split(',')"},
+	"slice":    {"Array.prototype", "0", "[1,2].slice(0,1)"},
+	"concat":   {"Array.prototype", "0", "[1].concat([2])"},
+	"error":    {"Error.prototype", "message", "new Error('m')"},
+}
+
+// implC07Builtin: a built-in creates an object while the prototype it will inherit from carries an
+// accessor (setter) or a read-only property of the name the built-in is about to create.
+func implC07Builtin(b, pol string) string {
+	e, ok := c07Builtins[b]
+	if !ok {
+		return "bad-op"
+	}
+	desc := "{get:F[0],set:F[1],configurable:true}"
+	if pol == "readonly" {
+		desc = "{value:9,writable:false,configurable:true}"
+	}
+	src := "(function(){ O=[];L=[];SP=[]; var TP=" + e[0] + ", NM='" + e[1] + "', clean=true, saved=Object.getOwnPropertyDescriptor(TP,NM), r, res;\n" +
+		"Object.defineProperty(TP,NM," + desc + ");\n" +
+		"try{ L=[]; r=" + e[2] + "; var calls=L.length?L.join(','):'-'; L=[]; res=calls+'|'+G(r,NM); }catch(e){ res='threw:'+e.name; }\n" +
+		"try{ delete TP[NM]; if(saved) Object.defineProperty(TP,NM,saved); if(!saved && hop.call(TP,NM)) clean=false; }catch(e){ clean=false; }\n" +
+		"return (clean?'clean:':'dirty:')+res; })()"
+	return c07RunDirty(src)
+}
+
 func implC07(line string) string {
 	f := strings.Fields(line)
+	if len(f) == 6 && f[0] == "w" {
+		return implC07Wrapper(f)
+	}
+	if len(f) == 2 && f[0] == "r" {
+		return implC07ReadOrder(f[1])
+	}
+	if len(f) == 3 && f[0] == "b" {
+		return implC07Builtin(f[1], f[2])
+	}
 	if len(f) == 3 && f[0] == "p" {
 		return implC07Prim(f[1], f[2])
 	}
@@ -848,6 +968,47 @@ func genC07(c *h.Ctx) {
 	for _, fn := range c07ObjFns {
 		for _, a := range []string{"number", "string", "boolean", "undefined", "null", "missing"} {
 			c.Add("p "+fn+" "+a, "primitive-argument")
+		}
+	}
+	// (2f) assignment / read through a primitive base; read order of ToPropertyDescriptor; built-ins under a polluted prototype
+	for _, kind := range []string{"s", "n", "b"} {
+		for _, lvl := range []string{"0", "1"} {
+			for _, form := range []string{"dot", "idx"} {
+				for _, e := range []string{"-", "1"} {
+					for _, cc := range []string{"1", "0"} {
+						for _, w := range tri {
+							for _, v := range []string{"-", "4"} {
+								for _, g := range []string{"-", "u", "0"} {
+									for _, s := range []string{"-", "u", "1"} {
+										if cc == "0" && !c.Thorough() {
+											continue // a non-configurable pollution costs a VM
+										}
+										c.Add("w "+kind+" "+lvl+" "+strings.Join([]string{e, cc, w, v, g, s}, ".")+" "+form+" 6", "primitive-base")
+									}
+								}
+							}
+						}
+					}
+				}
+			}
+		}
+	}
+	for _, e := range tri {
+		for _, cc := range tri {
+			for _, w := range tri {
+				for _, v := range []string{"-", "4"} {
+					for _, g := range []string{"-", "u", "0", "b"} {
+						for _, s := range []string{"-", "u", "1", "b"} {
+							c.Add("r "+strings.Join([]string{e, cc, w, v, g, s}, "."), "read-order")
+						}
+					}
+				}
+			}
+		}
+	}
+	for b := range c07Builtins {
+		for _, pol := range []string{"setter", "readonly"} {
+			c.Add("b "+b+" "+pol, "builtin-creates")
 		}
 	}
 	// (3) random histories
